@@ -21,6 +21,18 @@ def extract(cap):
     rc, evs = sysh.run(exe, sc)
     rep = sum(e["n"] for e in evs if e.get("e") == "Notify" and e.get("cls") == "dropped")
     k["ReportOnRemove"] = rep >= 1
+    # does the logger clean-up re-check the queues for every logger it frees?  probe: a statement logged and its logger
+    # removed while the backend sits between the emptiness check and the clean-up steps of an idle poll
+    exe = qsys.exe_of(f"BB:{cap}:{cap}")
+    sc = "\n".join(["cfg soft=4 hard=8 ring=2 grace=0", "sink S0", "logger L0 sinks=S0 lvl=0", "logger L1 sinks=S0 lvl=0", "start a",
+                    "T a log L0 id=1 pad=0", "B drain", "B pollf", "B go", "B go", "B go", "B go", "T a log L1 id=2 pad=0", "remove L1",
+                    "B go", "B go", "q loggers", "B drain", "B poll", "end"]) + "\n"
+    rc, evs = sysh.run(exe, sc)
+    parked = [e.get("why") for e in evs if e.get("e") == "Sched" and e.get("t") == "B" and e.get("st") == "parked"]
+    cnt = [e["n"] for e in evs if e.get("e") == "LoggerCount"]
+    if "IDLE3" not in parked or not cnt:
+        raise spsc.ExtractFailed("idle-poll yield points not where the model expects them")
+    k["RecheckOnRemove"] = cnt[0] == 2
     return k
 
 
@@ -29,16 +41,17 @@ def cfg_text(k, c, export, invariants, spec="Spec", props=()):
     th = "{" + ",".join('"%s"' % t for t in c["threads"]) + "}"
     return ("SPECIFICATION %s\nCONSTANTS Threads = %s\n NStmt = %d\n NFlush = %d\n Sizes = {%s}\n FlushSz = %d\n Bounded = %s\n"
             " Dropping = %s\n Cap = %d\n Batch = %d\n PublishWhenDrained = %s\n Soft = %d\n Hard = %d\n Grace = %d\n MaxTime = %d\n"
-            " AllowExit = %s\n ReportOnRemove = %s\n Export = %s\n%s%s%s%sCHECK_DEADLOCK FALSE\n"
+            " AllowExit = %s\n ReportOnRemove = %s\n Loggers = {%s}\n AllowRemove = %s\n RecheckOnRemove = %s\n Export = %s\n%s%s%s%sCHECK_DEADLOCK FALSE\n"
             % (spec, th, c["nstmt"], c["nflush"], ",".join(map(str, c["sizes"])), FLUSH_SZ, b(c["bounded"]), b(c["dropping"]),
                c["cap"], k["Batch"], b(k["PublishWhenDrained"]), c["soft"], c["hard"], c["grace"], c["maxtime"], b(c["exit"]),
-               b(k["ReportOnRemove"]), b(export),
+               b(k["ReportOnRemove"]), ",".join('"%s"' % l for l in c.get("loggers", ["L0"])), b(c.get("remove", False)),
+               b(k.get("RecheckOnRemove", True)), b(export),
                ("INVARIANTS " + " ".join(invariants) + "\n") if invariants else "",
                ("PROPERTIES " + " ".join(props) + "\n") if props else "",
                "VIEW StateView\n" if spec == "Spec" else "", "ACTION_CONSTRAINT ExportA\n" if export else ""))
 
 
-ACTIONS = ["LogStart", "Enqueue", "FlushStart", "FlushCheck", "ThreadExit", "BStart", "BRead", "BProc", "BAfterPop", "BBatchIter",
+ACTIONS = ["RemoveLogger", "LogStart", "Enqueue", "FlushStart", "FlushCheck", "ThreadExit", "BStart", "BRead", "BProc", "BAfterPop", "BBatchIter",
            "BIdle0", "BIdle1", "BIdle2", "BIdle3"]
 
 
@@ -49,7 +62,9 @@ def qk_of(c):
 
 def script_of(beh, c):
     """exported behaviour -> h_sys script (one harness step per model step, a state snapshot before each)"""
-    L = [f"cfg soft={c['soft']} hard={c['hard']} ring=2 grace={c['grace']}", "sink S0", "logger L0 sinks=S0 lvl=0"]
+    L = [f"cfg soft={c['soft']} hard={c['hard']} ring=2 grace={c['grace']}", "sink S0"]
+    for l in c.get("loggers", ["L0"]):
+        L.append(f"logger {l} sinks=S0 lvl=0")
     for t in c["threads"]:
         L.append(f"start {t}")
     steps = [h for h in beh if h["k"] == "step"]
@@ -59,7 +74,7 @@ def script_of(beh, c):
         L.append("mark step")
         who, act = h["who"], h["act"]
         if act == "logstart":
-            L.append(f"T {who} log L0 lvl=4 id={next(ids)} pad={h['arg'][0] - HDR} kind=direct yts=1")
+            L.append(f"T {who} log {h['arg'][1]} lvl=4 id={next(ids)} pad={h['arg'][0] - HDR} kind=direct yts=1")
         elif act in ("enqueue", "retry", "flushcheck"):
             L.append(f"T {who} go")
         elif act == "flushstart":
@@ -68,6 +83,11 @@ def script_of(beh, c):
             L.append(f"join {who}")
         elif act == "tick":
             L.append("tick 1")
+        elif act == "remove":
+            L.append(f"remove {h['arg'][0]}")
+        elif act == "idle3":
+            L.append("B go")
+            L.append("q loggers")
         elif act == "start":
             L.append("B pollf")
         else:
@@ -129,8 +149,9 @@ def compare(beh, evs, c):
 def contract_lines_of_model(beh, c):
     """the model's own events as TraceQuill lines (I => A)"""
     out = [{"k": "cfg", "grace": c["grace"], "dropping": c["dropping"], "bounded": c["bounded"]},
-           {"k": "sink", "s": "S0", "lvl": 0, "tw": [], "tf": []},
-           {"k": "logger", "lg": "L0", "sinks": ["S0"], "lvl": 0, "sys": True, "fresh": True}]
+           {"k": "sink", "s": "S0", "lvl": 0, "tw": [], "tf": []}]
+    for l in c.get("loggers", ["L0"]):
+        out.append({"k": "logger", "lg": l, "sinks": ["S0"], "lvl": 0, "sys": True, "fresh": True})
     for h in beh:
         if h["k"] != "step":
             if h["k"] == "write":
@@ -231,13 +252,17 @@ CONFIGS = {
     "C09": {"quick": [("one-thread", dict(threads=["t1"], nstmt=3, sizes=[40, 100, 256], exit=False))],
             "thorough": [("one-thread", dict(threads=["t1"], nstmt=4, sizes=[40, 100, 256], exit=False)),
                          ("two-threads", dict(nstmt=2, sizes=[40, 256], exit=False))]},
+    "C17": {"quick": [("remove", dict(nstmt=1, sizes=[96], exit=False, loggers=["L0", "L1"], remove=True))],
+            "thorough": [("remove-2stmt", dict(nstmt=2, sizes=[96], exit=False, loggers=["L0", "L1"], remove=True, threads=["t1"])),
+                         ("remove-exit", dict(nstmt=1, sizes=[96], exit=True, loggers=["L0", "L1"], remove=True)),
+                         ("remove-soft2", dict(nstmt=1, sizes=[96], exit=False, loggers=["L0", "L1"], remove=True, soft=2))]},
     "C20": {"quick": [("exit2", dict(nstmt=1, sizes=[96], exit=True))],
             "thorough": [("exit3", dict(threads=["t1", "t2", "t3"], nstmt=1, sizes=[96], exit=True)),
                          ("exit-flush", dict(nstmt=1, nflush=1, sizes=[96], exit=True))]},
 }
 LIVE = {"C09": ("live-resume", dict(threads=["t1"], nstmt=3, sizes=[40, 256], exit=False, maxtime=40), ["Resumes"]),
         "C06": ("live-flush", dict(nstmt=1, nflush=1, sizes=[96], exit=False, maxtime=40), ["FlushReturns"])}
-INVS = ["NoBad", "NoStall", "DropsAddUp", "TypeOK"]
+INVS = ["NoBad", "NoStall", "DropsAddUp", "AllDelivered", "TypeOK"]
 
 
 def run_for(ck, prop):
@@ -249,7 +274,7 @@ def run_for(ck, prop):
     except spsc.ExtractFailed as ex:
         ck.drifted(f"constant extraction for Quill.tla failed: {ex}")
         return
-    ck.extra["quill_model_constants"] = {x: k[x] for x in ("Batch", "PublishWhenDrained", "ReportOnRemove")}
+    ck.extra["quill_model_constants"] = {x: k[x] for x in ("Batch", "PublishWhenDrained", "ReportOnRemove", "RecheckOnRemove")}
     first = True
     for label, d in CONFIGS[prop]["quick" if quick else "thorough"]:
         c = dict(BASE)
@@ -262,6 +287,7 @@ def run_for(ck, prop):
                 raise vlib.Infra(rc.error)
             if rc.violated is None:
                 need = [a for a in ACTIONS if not (a in ("FlushStart", "FlushCheck") and c["nflush"] == 0)
+                        and not (a == "RemoveLogger" and not c.get("remove"))
                         and not (a == "ThreadExit" and not c["exit"]) and not (a == "BBatchIter" and c["soft"] < 2 and False)]
                 for a in need:
                     if not vlib.enabled(rc, a) and a != "BBatchIter":
